@@ -167,12 +167,30 @@ def clause_c(ctx, P):
     ra = calls_to(run, "Zeroconf::refresh_active_services")
     ok = bool(ra) and loop_every_iteration_passes(run, main, loops[main], [ra[0][0]])
     ctx.ob("C11c.refresh-every-iteration", run.name, ok, run.loc(), "refresh_active_services runs on every iteration of the run loop")
-    cs = calls_to(run, "DnsCache::refresh_due_hostname_resolutions")
-    ok = False
-    if cs:
-        inner = [h for h, body in loops.items() if cs[0][0] in body and h != main]
-        if inner:
-            ok = loop_every_iteration_passes(run, main, loops[main], [max(inner, key=lambda h: len(loops[h]))])
+    # the hostname-refresh step (in run or in a helper it calls): taken on every iteration, and after the browse refresh —
+    # both steps advance the same `refresh` mark of an address record; the browse step steps it 80 -> 85 -> 90 -> 95, the
+    # resolver step asks once and disarms it (refresh_no_more), so it has to come second
+    is_hr = lambda n: name_matches(n, "DnsCache::refresh_due_hostname_resolutions")
+    hr = blocks_always_reaching(P, run, is_hr, outer_head=main)
+    hr_blocks = [b for b, _c in hr if b in loops[main]]
+    ok = bool(hr_blocks) and loop_every_iteration_passes(run, main, loops[main], hr_blocks)
+    if ra and hr_blocks:
+        body = loops[main]
+        # inside one iteration: from the loop head to the hostname step without passing the browse refresh
+        seen = {main}
+        st = [main]
+        while st:
+            x = st.pop()
+            for s_ in run.succs(x):
+                if s_ not in body or s_ == main or s_ in seen or s_ == ra[0][0]:
+                    continue
+                seen.add(s_)
+                st.append(s_)
+        early = [b for b in hr_blocks if b in seen]
+        ctx.ob("C11c.browse-refresh-before-hostname-refresh", run.name, not early, run.loc(hr_blocks[0]),
+               "in every iteration refresh_active_services (80/85/90/95 stepping) runs before the hostname-resolver refresh (one query, then disarm)" if not early else
+               "the hostname-resolver refresh can run before refresh_active_services: it disarms the shared refresh mark of an address record "
+               "(refresh_no_more) so the 85/90/95 % re-queries of a browsed service's host never happen")
     ctx.ob("C11c.hostname-refresh-every-iteration", run.name, ok, run.loc(), "the hostname-refresh loop is entered on every iteration")
     f = P.one("Zeroconf::refresh_active_services")
     tr = tracer(P, f)
@@ -209,6 +227,7 @@ def clause_c(ctx, P):
 def run(ctx, P):
     from . import r2
     r2.cache_update_rules(ctx, P, "C11f", want=("reset",))
+    r2.expiry_only_brought_forward(ctx, P, "C11g")
     clause_a(ctx, P)
     clause_b(ctx, P)
     clause_c(ctx, P)
